@@ -206,7 +206,8 @@ def r_hash_const(ck: Checker) -> None:
         ck.violation("R-HASH-CONST", f, f.node, what, construct=f"_hash_fn returns {[norm(r.value) for r in rets if r.value is not None]}")
     ws = [w for w in scan_writes(ck.repo, ck.repo.nonlegacy()) if w.attr == "id"]
     what = "the id of a node is written only while the object is under construction (__post_init__ on self, _deserialize on the fresh object)"
-    allowed = {("ASTNode.__post_init__", "self"), ("ASTNode._deserialize", "new_obj")}
+    from ..dcmodel import fresh_object_local
+    allowed = {("ASTNode.__post_init__", "self"), ("ASTNode._deserialize", fresh_object_local(ck.repo.func(NODE, "ASTNode._deserialize").node))}
     for w in ws:
         if (w.func.qualname, w.recv) in allowed and w.func.mod.name == NODE:
             ck.holds("R-HASH-CONST", w.func, w.node, what, receiver=w.recv)
